@@ -67,8 +67,8 @@ theorem generalize_spec (c : Card) :
 def eraseComments : Shape → Stmt → Stmt := fun _ s => { s with comments := [] }
 def generalizeStmt : Shape → Stmt → Stmt := fun _ s => generalize s
 
-theorem eraseComments_tp : TyPreserving eraseComments := ⟨fun _ _ => rfl, fun _ _ => rfl, fun _ _ _ _ _ => rfl⟩
-theorem generalizeStmt_tp : TyPreserving generalizeStmt := ⟨fun _ _ => rfl, fun _ _ => rfl, fun _ _ _ _ _ => rfl⟩
+theorem eraseComments_tp : TyPreserving eraseComments := ⟨fun _ _ => rfl, fun _ _ => rfl, fun _ _ => rfl, fun _ _ => rfl, fun _ _ _ _ _ => rfl⟩
+theorem generalizeStmt_tp : TyPreserving generalizeStmt := ⟨fun _ _ => rfl, fun _ _ => rfl, fun _ _ => rfl, fun _ _ => rfl, fun _ _ _ _ _ => rfl⟩
 
 theorem pre_map (a b : Config) (g : Graph) (f : Shape → Stmt → Stmt)
     (hprof : Profiler.run b g = Profiler.run a g) (hbase : ∀ r, baseShapes b r = baseShapes a r)
@@ -120,7 +120,8 @@ theorem disable_exact_only_generalizes (cfg : Config) (g : Graph) :
 def relaxStmt (cfg : Config) : Shape → Stmt → Stmt := fun sh s => relax cfg sh.nInstances s
 
 theorem relaxStmt_tp (cfg : Config) : TyPreserving (relaxStmt cfg) :=
-  ⟨fun _ _ => relax_ty _ _ _, fun _ _ => relax_inverse _ _ _, by
+  ⟨fun _ _ => relax_ty _ _ _, fun _ s => by unfold relaxStmt relax; split <;> rfl,
+   fun _ s => by unfold relaxStmt relax; split <;> rfl, fun _ _ => relax_inverse _ _ _, by
     intro sh sh' s _ h2; unfold relaxStmt; rw [h2]⟩
 
 /-- **`all_instances_are_compliant_mode`** (with comments on and exact cardinalities kept): the run with
